@@ -4,31 +4,57 @@ CFG = {
  'model': 'c13',
  'ocaml_pkgs': 'zarith,coq-core.kernel',
  'ocaml_flags': '-rectypes -thread',
- # kernel primitives (Coq.Floats.PrimFloat: `Primitive float`, `Primitive ltb`), listed by Print Assumptions
- # for the one theorem stated over the executable binary64 instance; no logical axiom is used
- 'axioms': ["ClassicalDedekindReals.sig_forall_dec", "ClassicalDedekindReals.sig_not_dec", "Classical_Prop.classic", "FunctionalExtensionality.functional_extensionality_dep", 'PrimFloat.float', 'PrimFloat.ltb'],
+ # the four standard axioms of the classical reals (centroid theorems over R); for the theorems over the executable
+ # binary64 skeleton the standard library's FloatAxioms ltb_spec and SF2Prim_Prim2SF (order of binary64 on hit
+ # amplitudes); Print Assumptions also lists the kernel primitives PrimFloat.* / PrimInt63.* (registered
+ # primitives, not logical axioms) - named here, short and qualified, because the driver compares names
+ 'axioms': ["ClassicalDedekindReals.sig_forall_dec", "ClassicalDedekindReals.sig_not_dec", "Classical_Prop.classic",
+            "FunctionalExtensionality.functional_extensionality_dep",
+            'FloatAxioms.ltb_spec', 'ltb_spec', 'FloatAxioms.SF2Prim_Prim2SF', 'SF2Prim_Prim2SF']
+           + [q + n for q in ('', 'PrimFloat.') for n in ('float', 'ltb', 'eqb', 'abs', 'div', 'mul', 'sub', 'add', 'opp',
+                                                         'frshiftexp', 'ldshiftexp', 'normfr_mantissa', 'of_uint63')]
+           + [q + n for q in ('', 'PrimInt63.', 'Uint63.') for n in ('int', 'eqb', 'land', 'lor', 'lsl', 'lsr', 'sub')],
  'uses_gen': False,
  'rule': 'events are synthesised from a recipe (present wires as cyclic runs, response-shaped wire pulses with '
-         'induced neighbour signals, three-row pad patterns starting one sample before the wire pulse) and built with '
-         'MainEvent::verif_from_signals. Classes: random clusters (1-4 blocks, 1-5 hits, shared time bins, stray and '
+         'induced neighbour signals, optionally a signal length of its own per wire (cut or zero-extended: the max of '
+         'problem_dimensions and the zero padding of y_matrix), three-row pad patterns starting one sample before the '
+         'wire pulse) and built with the cfg hook MainEvent::verif_from_signals(wires, pads, 0), which fills the two '
+         'signal arrays directly with already calibrated signals (NOT through try_from_banks: no bank decoding, '
+         'calibration or suppression is involved in this check; that path is C09-C11). Classes: random clusters (1-4 blocks, 1-5 hits, shared time bins, stray and '
          'boundary-row pads, unmatched wire hits); one block straddling the 255/0 seam (quick: sample of lengths, '
          'thorough: every split of every length 2..24) with and without further blocks (exercises pop/swap_remove/push); '
          'edge patterns (block starting at wire 0 without 255, ending at 255 without 0, both separated by one absent '
          'wire, single wire, 255 wires, every second wire, no wires, wires without pads, pads without wires); full '
-         'ring of 256 wires; exact pad-amplitude ties (incl. the F6 recipe of DESIGN.md A.12). Per event: one `av` '
+         'ring of 256 wires; exact pad-amplitude ties (incl. the F6 recipe of DESIGN.md A.12; two wire hits or one for '
+         'the two tied pad hits); pad patterns with one or both neighbours at (1 - eps) * middle, eps log-uniform in '
+         '1e-16..1e-3 (the ill-conditioned centroid region; the ordinary patterns keep neighbours at 0.2..0.6). Per event: one `av` '
          'line (skeleton differential: real avalanches() vs the extracted Coq skeleton replaying block finding, index '
          'bookkeeping, BTreeSet column order, hit extraction, sorting and pairing on oracle tables logged through the '
          'hooks contiguous_ranges / wire_range_deconvolution / pad_deconvolution / match_column_inputs), rotations by '
-         'k pad columns (quick: k=1, 31 and two random; thorough: all 31) and the mirror as implementation-only '
+         'k pad columns (quick: k=1, 31 and two random; thorough: all 31, also for every split of the seam blocks) and the mirror as implementation-only '
          'relations (multiset of avalanches of the transformed event = transformed multiset, bit-identical for '
          'rotations, |z + z\'| <= 1e-9 m for the mirror). Relation lines of events recognised as members of an open '
-         'known-finding class carry the tags relkf-fullring / relkf-padtie. non-trivial = at least one avalanche '
+         'known-finding class carry the tags relkf-fullring / relkf-padtie / relkf-illcond (recognisers computed from the '
+         'event through the hooks: all 256 wires present / two pad hits of bit-identical amplitude in a time bin of a '
+         'selected column / a pad hit of a selected column with middle^2/(first*last) - 1 < 3.4e-10). Each class has one '
+         'documented failure prefix (fails rotation / fails mirror / fails mirror); on such lines a panic prints '
+         '`fails panic:<message>`, a full-ring event must still satisfy the measured far-from-seam relation (wire '
+         'amplitudes relative to the largest of the event; more than 5 wires from both seams: above 2e-2 agree to 2e-2; '
+         'more than 12: above 1e-4 agree to 1e-4; more than 24: above 1e-6 agree to 1e-9 with bit-identical z and pad '
+         'amplitude; else `fails far-from-seam`), a tie event must keep '
+         'the multisets of (wire, t, wire amplitude), (t, pad amplitude) and, when no pad hit is left unpaired, '
+         '(t, pad amplitude, |z|), every z being a mirrored pad hit of the event (else `fails pairing-lost`), an '
+         'ill-conditioned event must keep everything but z, and z within 6 mm (else `fails avalanche-count` / '
+         '`fails pairing` / `fails z-far`); a relkf line of an event outside its class prints `fails not-in-class`. non-trivial = at least one avalanche '
          '(av lines) / every relation line; distinct = distinct case line',
  'trusted': ['hand-written Gallina model of contiguous_ranges / range_to_indices / range_to_len / MainEvent::avalanches / '
              'matching.rs, tied to /repo by the skeleton differential (not by translation)',
              'numeric kernels are abstract in the theorems (block deconvolution D with length(D l) = length l; pad '
-             'deconvolution P; centroid zf with exact antisymmetry assumed for the mirror; sorts = payload-parametric '
-             '/ any sorting permutation); in the differential they are oracle tables logged from the implementation',
+             'deconvolution P; centroid zf: abstract with exact antisymmetry assumed in C13_mirror_equivariant, symbolic '
+             '(row, first, middle, last) in the binary64 mirror theorem, the real formula in the centroid theorems; sorts '
+             '= payload-parametric / any sorting permutation); in the differential they are oracle tables logged from '
+             'the implementation',
+             'standard library FloatAxioms (ltb_spec, SF2Prim_Prim2SF): PrimFloat comparison = SpecFloat comparison',
              'std: Vec::pop/swap_remove/push, BTreeSet ascending iteration, slice sort_unstable_by on <= 20 elements = '
              'stable insertion sort (modelled; agreement checked on tie cases by the differential)',
              'coq-core.kernel Float64 (binary64 comparison) in the model runner; ExtrOCamlFloats'],
@@ -36,18 +62,27 @@ CFG = {
                'kernels: contiguous_ranges returns exactly the maximal cyclic blocks, the blocks of the rotated ring are '
                'the rotated blocks as a set, every kernel call of the rotated event receives the same argument list, hence '
                'for every event that is not a full ring and every k < 32 the avalanches of the rotated event are a '
-               'permutation of the wire-shifted avalanches (t, z, amplitudes untouched); mirroring rows maps each avalanche '
-               'to the same wire/time/amplitudes with z negated unless two pad hits tie in one time bin. The two excluded '
-               'classes are refuted by witnesses (open known findings F3, F6). The model is tied to the Rust code by a '
+               'permutation of the wire-shifted avalanches (t, z, amplitudes untouched) - also for the executable binary64 '
+               'skeleton. Mirror: for the executable binary64 skeleton (no premise on kernels or amplitudes; the order '
+               'premises hold for hit amplitudes, which are positive and not NaN) mirroring rows maps each avalanche, in '
+               'the same order, to the same wire/time/amplitudes with z = zf(575 - row, last, middle, first) in place of '
+               'zf(row, first, middle, last), unless two pad hits tie in one time bin: pairing, sorting and ordering are '
+               'proved mirror invariant for floats. The numeric centroid formula itself is antisymmetric over the reals '
+               '(proved); in binary64 it is NOT antisymmetric to 1e-9 m when middle^2/(first*last) - 1 < 3.4e-10 (open '
+               'finding F11, binary64 witness proved without libm) and is measured, not proved, outside that class. The '
+               'two classes excluded by hypothesis are refuted by witnesses (open known findings F3, F6). The model is tied to the Rust code by a '
                'differential run with oracle tables on every check, and the relations are also evaluated on the '
                'implementation alone.',
  'level_note': 'trusted: Coq kernel; hand-written skeleton model (tie = differential with oracle tables); kernel laws assumed as '
-               'explicit premises of the theorems; extraction (ExtrOcamlBasic, ExtrOCamlFloats); harness and driver',
- 'note': 'rel-* lines are implementation-only relations (model prints holds); relkf-fullring / relkf-padtie lines are '
-         'expected to print `fails ...` on the unchanged tree (open findings F3 full_ring_256, F6 pad_amplitude_tie)',
+               'explicit premises of the theorems (length law of D for the rotation; none for the binary64 mirror theorem); '
+               'FloatAxioms ltb_spec / SF2Prim_Prim2SF; NOT proved: the binary64 rounding of the centroid formula outside '
+               'the class centroid_ill_conditioned (measured against 1e-9 m by rel-mir); extraction (ExtrOcamlBasic, ExtrOCamlFloats); harness and driver',
+ 'note': 'rel-* lines are implementation-only relations (model prints holds); relkf-fullring / relkf-padtie / relkf-illcond '
+         'lines may print `fails rotation ...` / `fails mirror ...` / `fails mirror ...` on the unchanged tree (open '
+         'findings F3 full_ring_256, F6 pad_amplitude_tie, F11 centroid_ill_conditioned) and nothing else',
 }
 
-CFG["level_extra"] = ("The zf-antisymmetry premise of the mirror theorem is discharged for the real (exact-arithmetic) centroid formula of matching.rs and the row positions of padwing/map.rs (C13_centroid_antisymmetric_real, C13_pad_row_z_antisymmetric, C13_mirror_equivariant_real); what remains between that and binary64 is rounding, bounded by the property's 1e-9 m and measured by rel-mir.")
+CFG["level_extra"] = ("The zf-antisymmetry premise of the abstract mirror theorem is discharged for the real (exact-arithmetic) centroid formula of matching.rs and the row positions of padwing/map.rs (C13_centroid_antisymmetric_real, C13_pad_row_z_antisymmetric, C13_mirror_equivariant_real). The comparability premise is restricted to hit amplitudes (false for arbitrary binary64 values: C13_float_order_not_total; true for binary64 hit amplitudes: C13_float_hit_amplitudes_ordered) and the theorem is instantiated on the executable binary64 skeleton with a symbolic z (C13_mirror_equivariant_symbolic, C13_mirror_equivariant_executable, C13_executable_factor). What is left is the binary64 rounding of the one centroid formula: NOT within 1e-9 m for ill-conditioned hits (finding F11: C13_centroid_ill_conditioned_witness; |z + z'| up to 2.5e-4 m measured, bounded by 0.002 * 1.5 * 2^-53 / (middle^2/(first*last) - 1) + 6e-16 m), measured by rel-mir outside that class.")
 
 # the pinned theorems depend on regenerated tables (coq/Gen): a failing translator is a broken tie
 CFG["uses_gen"] = True
